@@ -57,12 +57,12 @@ From Coq Require Import ZifyBool.
 Ltac Zify.zify_post_hook ::= Z.div_mod_to_equations.
 
 Lemma be2_shape : forall v, be 2 v = [(v / 256) mod 256; v mod 256].
-Proof. intros. cbn. rewrite Z.div_1_r. reflexivity. Qed.
+Proof. intros. reflexivity. Qed.
 
 Lemma unbe_be2 : forall v, 0 <= v < 65536 -> unbe (be 2 v) = v.
 Proof. intros v H. rewrite be2_shape. unfold unbe. cbn. lia. Qed.
 
-Definition tlv_wf (t : tlv) : Prop := 0 <= fst t < 65536 /\ (length (snd t) <= 65535)%nat.
+Definition tlv_wf (t : tlv) : Prop := 0 <= fst t < 65536 /\ Z.of_nat (length (snd t)) <= 65535.
 Definition tlv_concat (ts : list tlv) : bytes := concat (map tlv_ser ts).
 
 Lemma tlv_ser_length : forall t, length (tlv_ser t) = (4 + length (snd t))%nat.
@@ -111,7 +111,7 @@ Qed.
 
 Lemma tlv_concat_length : forall ts, (4 * length ts <= length (tlv_concat ts))%nat.
 Proof.
-  induction ts as [|t r IH]; cbn; [lia|]. unfold tlv_concat in *. cbn [map concat].
+  induction ts as [|t r IH]; [cbn; lia|]. unfold tlv_concat in *. cbn [map concat length].
   rewrite app_length, tlv_ser_length. lia.
 Qed.
 
@@ -174,7 +174,7 @@ Qed.
 (* what the builder accepts *)
 Lemma builder_add_ok : forall cap used t u,
   builder_add cap used t = Ok u ->
-  u = used ++ tlv_ser t /\ tlv_even t /\ (length (snd t) <= 65535)%nat /\ (length u <= cap)%nat.
+  u = used ++ tlv_ser t /\ tlv_even t /\ Z.of_nat (length (snd t)) <= 65535 /\ (length u <= cap)%nat.
 Proof.
   intros cap used t u H. unfold builder_add in H. cbv zeta in H.
   destruct (Nat.odd _) eqn:Eo; [discriminate|].
@@ -186,7 +186,7 @@ Qed.
 
 Lemma builder_add_all_ok : forall ts cap used u,
   builder_add_all cap used ts = Ok u ->
-  u = used ++ tlv_concat ts /\ Forall tlv_even ts /\ Forall (fun t => (length (snd t) <= 65535)%nat) ts /\ (length used <= cap -> length u <= cap)%nat.
+  u = used ++ tlv_concat ts /\ Forall tlv_even ts /\ Forall (fun t => Z.of_nat (length (snd t)) <= 65535) ts /\ (length used <= cap -> length u <= cap)%nat.
 Proof.
   induction ts as [|t r IH]; intros cap used u H; cbn in H.
   - inversion H; subst. unfold tlv_concat. cbn. rewrite app_nil_r. auto.
